@@ -105,6 +105,7 @@ class Sched(object):
                 t.tb = traceback.format_exc()
             finally:
                 t.state = 'done'
+                t.finished_at = self.now
                 self.ctrl.release()
         t.thread = threading.Thread(target=wrapper, name='vp-' + name, daemon=True)
         t.thread.start()
@@ -349,7 +350,7 @@ class Net(object):
         self.ends.append(server_end)
         client_end.peer, server_end.peer = server_end, client_end
         handler = self.listeners[addr]
-        self.sched.spawn(lambda: handler(server_end, ('client', self.nconn)), 'handler%d' % self.nconn)
+        self.sched.spawn(lambda: handler(server_end, ('client', self.nconn)), '%s%d' % (getattr(handler, 'vp_name', 'handler'), self.nconn))
         self.sched.point('connect')
 
 
@@ -452,7 +453,8 @@ class Outcome(object):
         self.deadlock = sched.deadlock
         self.overrun = sched.overrun
         self.elapsed = sched.now - sched.t0
-        self.threads = [(t.name, t.state, repr(t.exc) if t.exc is not None and t.exc != 'aborted' else None) for t in sched.threads]
+        self.threads = [(t.name, t.state, repr(t.exc) if t.exc is not None and t.exc != 'aborted' else None,
+                         None if t.exc == 'aborted' else getattr(t, 'finished_at', sched.now) - sched.t0) for t in sched.threads]
         self.crashed = [(t.name, repr(t.exc), getattr(t, 'tb', '')) for t in sched.threads
                         if t.exc is not None and t.exc != 'aborted']
         self.wire = list(net.wire)
